@@ -26,6 +26,10 @@ type Linter struct {
 	conf   *config.LinterConfig
 	// including holds the modules on the current include path in order to detect recursive inclusion
 	including map[string]bool
+	// rootIncludes holds the include statements of the root statements which are expanded before linting,
+	// keyed by the first and last statement they expanded to, so that their ignore comments cover them
+	rootIncludeFirst map[ast.Statement][]*ast.IncludeStatement
+	rootIncludeLast  map[ast.Statement][]*ast.IncludeStatement
 }
 
 func New(c *config.LinterConfig, opts ...optionFunc) *Linter {
@@ -331,8 +335,21 @@ func (l *Linter) lintVCL(vcl *ast.VCL, ctx *context.Context) types.Type {
 	l.inferSubroutineScopes(graph, ctx)
 
 	// Lint each statement/declaration logics
+	var savedRanges []ignoredRules // ignore ranges of the including files, see ignore.saveRange
 	for _, s := range statements {
+		// An include statement which is nested in an included module is registered before
+		// the include statement of the module, so the outermost one is set up first
+		includes := l.rootIncludeFirst[s]
+		for i := len(includes) - 1; i >= 0; i-- {
+			l.ignore.SetupStatement(includes[i].GetMeta())
+			savedRanges = append(savedRanges, l.ignore.saveRange())
+		}
 		l.lintStatement(s, ctx)
+		for _, include := range l.rootIncludeLast[s] {
+			l.ignore.restoreRange(savedRanges[len(savedRanges)-1])
+			savedRanges = savedRanges[:len(savedRanges)-1]
+			l.ignore.TeardownStatement(include.GetMeta())
+		}
 	}
 
 	return types.NeverType
@@ -415,11 +432,24 @@ func (l *Linter) resolveIncludeStatements(statements []ast.Statement, ctx *conte
 		}
 
 		// Check snippet inclusion
+		var included []ast.Statement
 		if strings.HasPrefix(include.Module.Value, "snippet::") {
-			resolved = append(resolved, l.resolveSnippetInclusion(include, ctx, isRoot)...)
-			continue
+			included = l.resolveSnippetInclusion(include, ctx, isRoot)
+		} else {
+			included = l.resolveFileInclusion(include, ctx, isRoot)
 		}
-		resolved = append(resolved, l.resolveFileInclusion(include, ctx, isRoot)...)
+		// Root statements are expanded before linting, remember the include statement
+		// in order to apply its ignore comments to the included statements (see lintVCL)
+		if isRoot && len(included) > 0 {
+			if l.rootIncludeFirst == nil {
+				l.rootIncludeFirst = make(map[ast.Statement][]*ast.IncludeStatement)
+				l.rootIncludeLast = make(map[ast.Statement][]*ast.IncludeStatement)
+			}
+			first, last := included[0], included[len(included)-1]
+			l.rootIncludeFirst[first] = append(l.rootIncludeFirst[first], include)
+			l.rootIncludeLast[last] = append(l.rootIncludeLast[last], include)
+		}
+		resolved = append(resolved, included...)
 	}
 
 	return resolved
